@@ -568,6 +568,9 @@ class HostInterp:
                 return getattr(obj, e.attr)
             if isinstance(obj, (_re.Match, _re.Pattern)):
                 return getattr(obj, e.attr)
+            if type(obj).__module__.startswith("ovldlint.") and not isinstance(obj, type) and hasattr(obj, e.attr):
+                # a stand-in object supplied by the analysis (a frozen record standing for a signature, ...)
+                return getattr(obj, e.attr)
             raise AnalysisError(f"rewriter interpretation: attribute {e.attr} of {type(obj).__name__}")
         if isinstance(e, ast.JoinedStr):
             out = ""
